@@ -100,6 +100,7 @@ func rekey(clean []byte, sync []byte) []byte {
 func runHistory(c *fw.Ctx, cf config, h []int) {
 	desc := fmt.Sprintf("%s codec=%s blocksize=%d history=[%s]", cf.k.Name, cf.codec, cf.bs, encdrv.HistString(cf.k, h))
 	locus := cf.k.Name
+	c.Begin(locus, desc) // progress marker (the watchdog needs to see progress inside long cases)
 	// fault-free run: learn the number of writes and the clean output
 	clean := &faultyWriter{failAt: -1}
 	var writeOfCall []int // number of writes issued before call i (call -1 = constructor)
